@@ -17,7 +17,7 @@ GO = r"[A-Za-z][A-Za-z0-9_]*"
 YT = r"[A-Za-z]((\.|-|_)?[A-Za-z0-9])*"
 GOFUNC = r"((%s)\.)?%s" % (IMPORT, GO)
 LANG = {
-    "param-name": YT, "service-name": YT, "tag": YT, "alias": YT, "getter": GO, "call": GO, "field": GO, "pkg": GO, "ctype": GO, "cctor": GO,
+    "param-name": YT, "service-name": YT, "todo-service-name": YT, "tag": YT, "alias": YT, "getter": GO, "call": GO, "field": GO, "pkg": GO, "ctype": GO, "cctor": GO,
     "fn-name": GO, "import": IMPORT, "constructor": GOFUNC, "gofn": GOFUNC, "dec-method": GOFUNC, "dec-tag": r"(\*|(%s))" % YT,
     "type": r"\*?((%s)\.)?%s" % (IMPORT, GO),
     "value": r"(&?((%s)\.)?%s(\.%s)*)|(&?((%s)\.)?%s\{\})" % (IMPORT, GO, GO, IMPORT, GO),
@@ -44,6 +44,11 @@ def pack(pos, cands):
     elif pos == "service-name":
         for c in cands:
             cfg["services"][c] = {"value": "V"}
+            car[c] = c
+    elif pos == "todo-service-name":
+        # a todo placeholder is exempt from the attribute rules, not from the naming rule; its attributes may be anything
+        for i, c in enumerate(cands):
+            cfg["services"][c] = {"todo": True} if i % 2 else {"todo": True, "constructor": "not a constructor", "getter": "9", "tags": ["a b", "a b"]}
             car[c] = c
     elif pos in ("alias", "import", "fn-name", "gofn"):
         m = cfg.setdefault("meta", {})
@@ -105,7 +110,7 @@ def expected_diag(pos, key, cand):
     q = gq(cand)
     if pos == "param-name":
         return [P + "parameters: %s: invalid name" % q]
-    if pos == "service-name":
+    if pos in ("service-name", "todo-service-name"):
         return [P + "services: %s: invalid name" % q]
     if pos == "alias":
         return [P + "meta: imports: invalid alias %s" % q]
@@ -166,7 +171,7 @@ def run(tier, seed, replay):
     specs = []
     plan = []   # per spec: (pos, carriers)
     for pos in LANG:
-        cands = [c for c in allstr if c != ""] if pos in ("param-name", "service-name", "alias", "fn-name", "field") else list(allstr)
+        cands = [c for c in allstr if c != ""] if pos in ("param-name", "service-name", "todo-service-name", "alias", "fn-name", "field") else list(allstr)
         if tier == "quick":
             # all strings up to length 2, and a third of length 3
             cands = [c for c in cands if len(c) <= 2 or r.random() < 0.34]
